@@ -51,6 +51,19 @@ Proof.
   rewrite H. destruct (Nat.eqb m p); reflexivity.
 Qed.
 
+(* O O^T = 1 when the new basis is orthonormal too *)
+Lemma O_rows_orthonormal : basis_orthonormal d n Cb' -> forall i j, (i < n)%nat -> (j < n)%nat ->
+  sumn' n (fun m => Omat i m * Omat j m) = if Nat.eqb i j then 1 else 0.
+Proof.
+  intros Honb' i j Hi Hj.
+  pose proof (parseval_tr d n Cb Hcomp (Cb' i) (Cb' j)) as H.
+  rewrite (csumn_ext n _ (fun m => rcx (Omat i m * Omat j m))) in H.
+  2:{ intros m Hm. rewrite (ftr_cyclic d (Cb m) (Cb' j)). fold (Ocx i m). fold (Ocx j m).
+      rewrite !Ocx_real by auto. unfold rcx. apply c_eq; csimp; ring. }
+  rewrite (Honb' i j Hi Hj) in H. apply (f_equal fst) in H. rewrite csumn_re in H. simpl in H.
+  rewrite H. destruct (Nat.eqb i j); reflexivity.
+Qed.
+
 (* ---------- the generator does not depend on the basis ---------- *)
 Variables (G G' : RMr).
 Hypothesis HG' : forall k l, (k < n)%nat -> (l < n)%nat ->
